@@ -36,8 +36,9 @@ func (c *Cmt) prepareOn(n *Node, h int64, t time.Time, proposer []byte, eci abci
 		NextValidatorsHash: c.NextVals.Hash(), ProposerAddress: proposer}
 	var resp *abci.ResponsePrepareProposal
 	var err error
+	trouble := n.EL.Trouble
 	out := n.run("prepare", func() { resp, err = n.App.PrepareProposal(req) })
-	n.lastFaulted = anyUsed(faults)
+	n.lastFaulted = anyUsed(faults) || n.EL.Trouble != trouble
 	n.EL.arm(nil)
 	if resp == nil {
 		return nil, out, err
@@ -62,6 +63,7 @@ func (c *Cmt) processOn(n *Node, h int64, t time.Time, proposer []byte, txs [][]
 	var err error
 	out := n.run("process", func() { resp, err = n.App.ProcessProposal(req) })
 	n.lastFaulted = anyUsed(faults)
+	n.lastEngineTrouble = false
 	n.EL.arm(nil)
 	return resp != nil && resp.Status == abci.ResponseProcessProposal_ACCEPT, out, err
 }
@@ -248,6 +250,8 @@ func (c *Cmt) produceBlock(args *BlockArgs) bool {
 		decided = &DecidedBlock{Height: h, Round: round, Time: t, Proposer: pv.Address, Txs: txs, Hash: hash, LastCommit: ci, Misbehavior: misb,
 			NextValHash: c.NextVals.Hash(), Vals: c.Vals}
 		decided.LastCommit.Round = int32(round)
+		decided.Honest = honest && !faulted
+		decided.WellBehaved = w.payloadWellBehaved(txs)
 	}
 	if decided == nil {
 		w.probe("height-not-decided")
@@ -399,7 +403,11 @@ func (c *Cmt) produceBlock(args *BlockArgs) bool {
 		if n.Height == h {
 			c.recheck(n)
 		}
+		if n.Pool != nil {
+			n.Pool.Junk = nil
+		}
 	}
+	w.JunkVotes = 0
 	w.afterBlock(b)
 	return true
 }
